@@ -18,6 +18,7 @@ def dvToJ : DV → J
   | .dna d => .obj [("dna", dnaToJ d)]
   | .str s => .str s
   | .lit l => litToJ l
+  | .choice i n lit => .str (choiceStr i n lit)
 
 def deToJ : DE → J
   | .one v => dvToJ v
@@ -53,7 +54,9 @@ def viewsOf (g : Spec) (d : DNA) : J :=
         (match g.annot d with
          | none => [("beliefs", .null)]
          | some b => [("beliefs", .arr (beliefs b)),
-                      ("dicts", .arr (optsGrid.map fun o => dictToJ (toDict o b)))]))
+                      ("dicts", .arr (optsGrid.map fun o => dictToJ (toDict o b))),
+                      ("from_dicts", .arr (optsGrid.map fun o =>
+                        optDnaToJ (g.fromDict (o.valueType == 3) (toDict o b))))]))
 
 def pathOfJ (j : J) : Option (List Nat) := j.asArr?.bind (·.mapM J.asNat?)
 
@@ -62,6 +65,7 @@ def stepOp (g : Spec) (cur : DNA) (op : J) : Option DNA :=
   match op.getStr? "op" with
   | some "next" => (g.next cur).bind id
   | some "clone" | some "renumber" | some "redict" | some "rejson" => some cur
+  | some "given" => (op.get? "tree").bind dnaOfJ
   | some "swap" =>
     match (op.get? "path").bind pathOfJ, op.getNat? "i", op.getNat? "j" with
     | some p, some i, some j => some (swapAt p i j cur)
